@@ -16,7 +16,7 @@ import z3
 
 from . import models, narr, npmodels
 from .engine import ProgExc, Unsupported
-from .values import NArr, PList, SArr, Sym, fresh, fresh_name, kind_of, to_z3, zint
+from .values import NArr, PList, SArr, Sym, fresh, fresh_name, kind_of, next_uid, to_z3, zint
 
 
 def used(eng, name):
@@ -220,7 +220,85 @@ def _full(eng, args, kwargs):
     return _const_array(eng, n, fv, kwargs.get("dtype", args[2] if len(args) > 2 else None), "full")
 
 
+class Grid:
+    """(P, T, n) float array, P and T concrete, the last extent n symbolic: rows[i][j] is a z3 array Int -> elem"""
+
+    def __init__(self, P, T, n, kind, rows, dtype=None):
+        self.P, self.T, self.n, self.kind, self.rows, self.dtype = P, T, n, kind, rows, dtype
+        self.uid = next_uid()
+
+    def row(self, i, j):
+        return SArr(self.rows[i][j], self.n, self.kind, name="gridrow", dtype=self.dtype)
+
+    def __pyvc_getattr__(self, eng, name):
+        if name == "shape":
+            return (self.P, self.T, Sym(self.n, "int") if isinstance(self.n, z3.ExprRef) else self.n)
+        if name == "ndim":
+            return 3
+        if name == "dtype":
+            return self.dtype
+        raise Unsupported(f"attribute {name} of a (P, T, n) array with symbolic n")
+
+    def __pyvc_snapshot__(self, memo):
+        c = Grid(self.P, self.T, self.n, self.kind, [list(r) for r in self.rows], self.dtype)
+        c.uid = self.uid
+        return c
+
+    def __pyvc_getitem__(self, eng, idx):
+        if isinstance(idx, tuple) and len(idx) == 2 and all(isinstance(x, int) and not isinstance(x, bool) for x in idx):
+            i, j = idx
+            if not (-self.P <= i < self.P and -self.T <= j < self.T):
+                raise ProgExc(IndexError, "index out of bounds")
+            return self.row(i % self.P, j % self.T)  # (a copy: reads only)
+        raise Unsupported("this index form of a (P, T, n) array with symbolic n")
+
+    def __pyvc_setitem__(self, eng, idx, val):
+        used(eng, "a[i, j, :L] = v on a (P, T, n) array: v must have min(max(L,0), n) elements; they replace the first elements of row (i, j)")
+        if not (isinstance(idx, tuple) and len(idx) == 3 and all(isinstance(x, int) and not isinstance(x, bool) for x in idx[:2]) and isinstance(idx[2], slice)
+                and idx[2].start is None and idx[2].step is None):
+            raise Unsupported("this index form of a store into a (P, T, n) array with symbolic n")
+        i, j, sl = idx
+        if not (-self.P <= i < self.P and -self.T <= j < self.T):
+            raise ProgExc(IndexError, "index out of bounds")
+        i, j = i % self.P, j % self.T
+        nz = zint(self.n)
+        if sl.stop is None:
+            L = nz
+        else:
+            st = to_z3(sl.stop, "int")
+            st = z3.If(st < 0, z3.If(st + nz < 0, z3.IntVal(0), st + nz), st)
+            L = z3.If(st < nz, st, nz)
+        if not isinstance(val, SArr):
+            raise Unsupported("store of a non-1-D-symbolic value into a (P, T, n) array")
+        if not eng.branch(eng.sbool(val.nz() == L)):
+            if eng.branch(eng.sbool(val.nz() == 1)):
+                raise Unsupported("broadcast of a one-element array in a slice store")
+            raise ProgExc(ValueError, "could not broadcast input array into the slice")
+        q = z3.Int(fresh_name("q"))
+        old = self.rows[i][j]
+        self.rows[i][j] = z3.Lambda([q], z3.If(z3.And(q >= 0, q < L), to_z3(narr.cast(eng, val.get(q), self.kind), self.kind), z3.Select(old, q)))
+
+
+def _grid_shape(shape):
+    if isinstance(shape, PList) and shape.items is not None:
+        shape = tuple(shape.items)
+    if isinstance(shape, (tuple, list)) and len(shape) == 3 and all(isinstance(x, int) and not isinstance(x, bool) for x in shape[:2]) and isinstance(shape[2], Sym):
+        return shape
+    return None
+
+
 def _zeros(eng, args, kwargs):
+    g = _grid_shape(args[0] if args else kwargs.get("shape"))
+    if g is not None:
+        used(eng, "np.zeros((P, T, n)): zeros, P and T concrete, n symbolic")
+        P, T, n = g
+        if not eng.spec_mode:
+            if not eng.branch(eng.sbool(n.z >= 0)):
+                raise ProgExc(ValueError, "negative dimensions are not allowed")
+        dt = kwargs.get("dtype", args[1] if len(args) > 1 else None)
+        k = npmodels.kind_of_dtype(dt) if dt is not None else "real"
+        zero = z3.K(z3.IntSort(), to_z3(narr.cast(eng, 0, k), k))
+        return Grid(P, T, n.z, k, [[zero for _ in range(T)] for _ in range(P)], dt)
     n = _dim(args[0] if args else kwargs.get("shape"))
     if n is None:
         return narr.np_zeros(eng, args, kwargs)
@@ -353,6 +431,30 @@ def _int(eng, args, kwargs):
     return _stock_int(eng, args, kwargs)
 
 
+# ------------------------------------------------------------------ max / min of one scalar, chain.from_iterable
+def _minmax(is_min):
+    stock = models.BUILTIN_MODELS[min if is_min else max]
+
+    def model(eng, args, kwargs):
+        if len(args) == 1 and kind_of(args[0]) is not None:
+            raise ProgExc(TypeError, f"'{'int' if kind_of(args[0]) == 'int' else 'float'}' object is not iterable")  # max(5): a single scalar is taken for the iterable
+        if not args:
+            raise ProgExc(TypeError, "expected at least 1 argument, got 0")
+        return stock(eng, args, kwargs)
+
+    return model
+
+
+def _from_iterable(eng, args, kwargs):
+    used(eng, "itertools.chain.from_iterable: the entries of the inner iterables in order")
+    out = []
+    for it in models.iterate_concrete(eng, args[0]):
+        out.extend(models.iterate_concrete(eng, it))
+    from .values import Iter
+
+    return Iter(PList(out))
+
+
 # ------------------------------------------------------------------ getattr / callable on interpreted objects
 def _getattr(eng, args, kwargs):
     from .values import Obj, Opaque
@@ -399,6 +501,11 @@ def install():
     models.EXTRA_MODELS[np.concatenate] = _concatenate
     if _rows_element not in models.EXTRA_ELEMENT_HOOKS:
         models.EXTRA_ELEMENT_HOOKS.append(_rows_element)
+    import itertools
+
+    models.EXTRA_MODELS[max] = _minmax(False)
+    models.EXTRA_MODELS[min] = _minmax(True)
+    models.EXTRA_MODELS[itertools.chain.from_iterable] = _from_iterable
     models.EXTRA_MODELS[np.linalg.norm] = _norm
     models.EXTRA_MODELS[np.nonzero] = _nonzero
     models.EXTRA_MODELS[np.ceil] = _ceil
